@@ -192,7 +192,11 @@ def r3_confinement(R) -> None:
     pq = f'{T}.trace_period'
     pf = Fn(R, pq)
     calls = [x for x in ast.walk(pf.fi.node) if is_self_call(x, 'trace_t')]
-    ok = len(calls) == 1 and text(calls[0].args[0]) == 't' and text(calls[0].args[1]) == 'label'
+    # the position, by role: the local that holds `self._locate_period_in_span(period)` (or that call itself)
+    pos_names = {'t'} | {n_.ast.targets[0].id for n_ in pf.cfg.nodes if n_.kind == 'stmt' and isinstance(n_.ast, ast.Assign) and len(n_.ast.targets) == 1
+                         and isinstance(n_.ast.targets[0], ast.Name) and is_self_call(n_.ast.value, '_locate_period_in_span')}
+    ok = len(calls) == 1 and len(calls[0].args) >= 2 and (text(calls[0].args[0]) in pos_names or is_self_call(calls[0].args[0], '_locate_period_in_span')) \
+        and text(calls[0].args[1]) == 'label'
     R.check(ok, pq, 'trace_period-delegates', 'trace_period delegates to trace_t at the located position', 'trace_period does not call self.trace_t(t, label, ...)', where=pf.fi.where)
 
 
